@@ -310,7 +310,10 @@ class Evaluator:
             elif isinstance(e, dict) and 'dc' in e:
                 path = path + (('dc', e.get('n')),)
             elif isinstance(e, dict) and 'idx' in e:
-                path = path + (('idx', self.read(st, (e['idx'],))),)
+                it = self.read(st, (e['idx'],))
+                if not st.events or st.events[-1].get('kind') != 'index' or st.events[-1]['index'] != it:
+                    st.events.append({'kind': 'index', 'index': it, 'base': path, 'block': st.blocks[-1] if st.blocks else 0})
+                path = path + (('idx', it),)
             elif isinstance(e, dict) and 'cidx' in e:
                 path = path + (('cidx', e['cidx'], e.get('from_end', False)),)
             else:
@@ -828,6 +831,9 @@ def mk_len(v):
         n += 1
         if v[0] == 'elems':
             v = v[2]
+            continue
+        if v[0] == 'partial' and all(pth and isinstance(pth[0], tuple) and pth[0][0] in ('idx', 'cidx') for pth, _ in v[2]):
+            v = v[1]          # element stores do not change the length
             continue
         if v[0] == 'call' and v[2] and any(v[1].endswith(sfx) for sfx in LEN_PRESERVING if sfx in ('::to_vec', '::into_boxed_slice', '::into_vec', '::to_owned')):
             v = v[2][0]
